@@ -838,10 +838,12 @@ where
 	let key_id = block_fees.key_id();
 	let parent_key_id = wallet.parent_key_id();
 
+	// A mining node may name the key of the coinbase candidate it asked for earlier, which is then
+	// replaced. Any other existing output record must never be re-used (and overwritten).
 	let key_id = match key_id {
-		Some(key_id) => match keys::retrieve_existing_key(wallet, key_id, None) {
-			Ok(k) => k.0,
-			Err(_) => keys::next_available_key(wallet, keychain_mask)?,
+		Some(key_id) => match wallet.get(&key_id, &None) {
+			Ok(o) if o.is_coinbase && o.status == OutputStatus::Unconfirmed => o.key_id,
+			_ => keys::next_available_key(wallet, keychain_mask)?,
 		},
 		None => keys::next_available_key(wallet, keychain_mask)?,
 	};
